@@ -68,7 +68,17 @@ func (e Env) Deadline() time.Time { return time.Now().Add(time.Duration(e.Budget
 
 type Rand struct{ s uint64 }
 
-func NewRand(seed uint64) *Rand { return &Rand{s: seed*0x9E3779B97F4A7C15 + 0x1234567} }
+// NewRand hashes the seed first, so that consecutive seeds give unrelated streams (a plain
+// splitmix64 state of seed*golden would make seed k+1 a one-step shift of seed k).
+func NewRand(seed uint64) *Rand {
+	z := seed + 0x632BE59BD9B4E019
+	z = (z ^ (z >> 30)) * 0xBF58476D1CE4E5B9
+	z = (z ^ (z >> 27)) * 0x94D049BB133111EB
+	z ^= z >> 31
+	z = (z ^ 0xD1B54A32D192ED03) * 0x9E3779B97F4A7C15
+	z ^= z >> 29
+	return &Rand{s: z}
+}
 
 func (r *Rand) Uint64() uint64 {
 	r.s += 0x9E3779B97F4A7C15
